@@ -292,7 +292,7 @@ fn analyze_change<'a>(
                                 .filter(|target2: &String| core::is_path_prefix(target2, target))
                                 .for_each(|target2: String| {
                                     if !ignore_targets.contains(target2.as_str()) {
-                                        targets.insert(target.to_string());
+                                        targets.insert(target2.to_string());
                                         update_change_targets(
                                             &mut change_targets,
                                             &target2,
